@@ -159,7 +159,7 @@ func (P) Gen(rng *sim.Rng, tier string) *harness.Case {
 						mangle = rng.Range(1, 10)
 					}
 					// (M == 1: the new content is written to a temporary file that is then renamed over the watched name)
-					ops = append(ops, harness.Op{K: "fwrite", A: pick(cfg.FileM), N: uint64(mangle), E: rng.Intn(10000), F: rng.Chance(0.7), M: uint64([]int{0, 0, 0, 0, 0, 0, 1, 2}[rng.Intn(8)])})
+					ops = append(ops, harness.Op{K: "fwrite", A: pick(cfg.FileM), N: uint64(mangle), E: rng.Intn(10000), F: rng.Chance(0.7), M: uint64([]int{0, 0, 0, 0, 0, 0, 1, 2, 3}[rng.Intn(9)])})
 				}
 			}
 		}
@@ -915,6 +915,14 @@ func (P) Exec(c *harness.Case) *harness.Outcome {
 					// removal of the watched file (and drops the watch)
 					fsrc.pending = append(fsrc.pending, simfsnotify.Event{Name: fsrc.path, Op: simfsnotify.Remove})
 					o.Fault("file_replaced_by_a_rename_over_it")
+				} else if op.M == 3 {
+					// ... and the file that comes is unreadable for a moment (written with mktemp's 0600 by another
+					// user and opened up right after the move): no watch can be put on it at first
+					fsrc.pending = append(fsrc.pending, simfsnotify.Event{Name: fsrc.path, Op: simfsnotify.Remove})
+					o.Fault("file_replaced_by_a_file_that_is_unreadable_for_a_moment")
+					if wt := simfsnotify.Last(); wt != nil {
+						wt.AddErr = 1
+					}
 				} else {
 					// ... or the replaced file lives on - under another name (a hard link kept as a backup) or in
 					// the hands of a process that has it open: all its watch announces is a change of attributes
